@@ -13,7 +13,7 @@ use scratchstack_aws_signature::{SignatureOptions, NO_ADDITIONAL_SIGNED_HEADERS}
 use serde::{Deserialize, Serialize};
 use serde_json::json;
 
-pub const RULE: &str = "enumerated completely: every two-digit value 00-99 of month, day (for every month of a leap and a non-leap year), hour, minute, second, zone hour and zone minute with the other fields fixed; all 2^5 separator combinations x 3 fraction marks; fraction lengths 0-12; years 0001, 0999, 1000, 9999; generated: random strings over the date-time alphabet, single-character insertions/deletions/substitutions of valid timestamps, renderings of random instants, surrounding spaces on the header carrier, a well-formed Date header next to the X-Amz-Date under test; each string on both carriers and as the last field of a folded form body (trailing line breaks left raw). Also: junk appended/prepended to a valid timestamp (comma-space-x, space-GMT, semicolon-x, a second timestamp after comma-space), and pairs of same-length strings one digit apart (fractions up to 50 digits) parsed directly after one another. Oracle = independent recursive-descent ISO-8601 parser with calendar arithmetic: MustAccept => the crate produces an authenticator whose instant equals the reference instant (offset applied, fraction truncated to ns), line 2 of its string-to-sign is that instant as YYYYMMDD'T'hhmmss'Z' in UTC, and end to end a request signed for that instant is accepted with the server clock exactly 900 s later and refused 1 ns further (pins the instant through the stable API); MustReject (out-of-range field, impossible date, missing zone, extra characters) => IncompleteSignature/400; Unspecified (zone > 14h, mixed separators, reduced precision, lower-case designators) => if accepted the instant must still be the reference one. Non-trivial: well-formed except for at most one field, or non-Z zone, or fraction, or extended form; distinct by (string, carrier).";
+pub const RULE: &str = "enumerated completely: every two-digit value 00-99 of month, day (for every month of a leap and a non-leap year), hour, minute, second, zone hour and zone minute with the other fields fixed; all 2^5 separator combinations x 3 fraction marks; fraction lengths 0-12; years 0001, 0999, 1000, 9999; generated: random strings over the date-time alphabet, single-character insertions/deletions/substitutions of valid timestamps, renderings of random instants, surrounding spaces on the header carrier, a well-formed Date header next to the X-Amz-Date under test; each string on both carriers and as the last field of a folded form body (trailing line breaks left raw). Also: junk appended/prepended to a valid timestamp (comma-space-x, space-GMT, semicolon-x, a second timestamp after comma-space), and pairs of same-length strings one digit apart (fractions up to 50 digits) parsed directly after one another. Oracle = independent recursive-descent ISO-8601 parser with calendar arithmetic: MustAccept => the crate produces an authenticator whose instant equals the reference instant (offset applied, fraction truncated to ns), line 2 of its string-to-sign is that instant as YYYYMMDD'T'hhmmss'Z' in UTC, and end to end a request signed for that instant is accepted with the server clock exactly 900 s later and refused 1 ns further (pins the instant through the stable API); MustReject (out-of-range field, impossible date, missing zone, extra characters) => IncompleteSignature/400; Unspecified (zone > 14h, mixed separators, reduced precision) => if accepted the instant must still be the reference one. Non-trivial: well-formed except for at most one field, or non-Z zone, or fraction, or extended form; distinct by (string, carrier).";
 
 #[derive(Clone, Debug, Serialize, Deserialize, PartialEq, Eq)]
 pub struct TsCase {
@@ -277,7 +277,7 @@ fn build_request(tc: &TsCase, credential_date: &str) -> WireRequest {
             headers: vec![
                 ("Host".into(), B::from("h.example")),
                 ("X-Amz-Date".into(), B(v)),
-                ("Authorization".into(), B::from(format!("AWS4-HMAC-SHA256 Credential={}, SignedHeaders=host;x-amz-date, Signature={}", cred, "0".repeat(64)))),
+                ("Authorization".into(), B::from(format!("AWS4-HMAC-SHA256 Credential={}, SignedHeaders={}, Signature={}", cred, if tc.pad & 16 == 0 { "host;x-amz-date" } else { ["host;x-amz-date", "date;host", "date;host;x-amz-date"][tc.text.len() / 3 % 3] }, "0".repeat(64)))),
             ],
             body: B::default(),
         };
